@@ -376,6 +376,9 @@ func runC15(p *an.Prog, r *an.Run, tier string) {
 		return fn != nil && scope[fn] && !isTestDoublePkg(fn) && !strings.HasSuffix(p.File(fn.Pos()), "testsuite.go")
 	}
 
+	// ---- a panic the library raises on the codec's behalf (gorilla: repeated read on a failed connection)
+	checkReadErrorTerminal(p, r)
+
 	// ---- bounds
 	sites, raw, err := unprovenBounds(p.RepoDir)
 	if err != nil {
